@@ -56,6 +56,28 @@ func TestVerifC16(t *testing.T) {
 				}
 				fmt.Fprintf(w, "%d %d %d %d\n", n, first, last, h)
 			}
+		case "rawgen":
+			// an IPNet built by hand: the IP field keeps its host bits (not what ParseCIDR returns)
+			ip := net.ParseIP(f[1]).To4()
+			p, _ := strconv.Atoi(f[2])
+			if ip == nil {
+				fmt.Fprintf(w, "error bad ip\n")
+				continue
+			}
+			ipnet := &net.IPNet{IP: ip, Mask: net.CIDRMask(p, 32)}
+			ch := make(chan uint32, 1024)
+			go func() {
+				ipGenerator(context.Background(), ipnet, ch)
+				close(ch)
+			}()
+			var sb strings.Builder
+			n := 0
+			for ipv := range ch {
+				sb.WriteByte(' ')
+				sb.WriteString(strconv.FormatUint(uint64(ipv), 10))
+				n++
+			}
+			fmt.Fprintf(w, "%d%s\n", n, sb.String())
 		case "head":
 			_, ipnet, err := net.ParseCIDR(f[1])
 			if err != nil {
